@@ -40,25 +40,29 @@ MEM = {"DRAM": DRAM, "STACK": DRAM_STACK, "NOACC": NOACC}
 
 def template(alias=False):
     @proc
-    def leaf(d: [f32][8], s: [f32][8]):
+    def leaf(d: [f32][8], s: [f32][8], r: f32):
         for i in seq(0, 8):
-            d[i] = s[i]
+            d[i] = s[i] * r
 
     if alias:
         @proc
         def callee(x: f32[8], y: f32[8]):
             t: f32[8]
+            c: f32
+            c = 2.0
             w = y[0:8]
             for i in seq(0, 8):
                 t[i] = x[i] + w[i]
-            leaf(w, t[0:8])
+            leaf(w, t[0:8], c)
     else:
         @proc
         def callee(x: f32[8], y: f32[8]):
             t: f32[8]
+            c: f32
+            c = 2.0
             for i in seq(0, 8):
                 t[i] = x[i] + y[i]
-            leaf(y[0:8], t[0:8])
+            leaf(y[0:8], t[0:8], c)
 
     @proc
     def caller(a: f32[8], b: f32[8]):
@@ -81,6 +85,7 @@ def instantiate(asg):
     for u in ("d", "s"):
         lf = S.set_precision(lf, u, asg["prec"][u])
         lf = S.set_memory(lf, u, MEM[asg["mem"][u]])
+    lf = S.set_precision(lf, "r", asg["prec"].get("r", "f32"))
     ce = callee
     for u in ("x", "y"):
         ce = S.set_precision(ce, u, asg["prec"][u])
@@ -89,6 +94,7 @@ def instantiate(asg):
             ce = S.set_window(ce, u, True)
     ce = S.set_precision(ce, "t : _", asg["prec"]["t"])
     ce = S.set_memory(ce, "t : _", MEM[asg["mem"]["t"]])
+    ce = S.set_precision(ce, "c : _", asg["prec"].get("c", "f32"))
     ce = S.call_eqv(ce, "leaf(_)", lf)
     cr = caller
     for u in ("a", "b"):
